@@ -486,6 +486,30 @@ func (attr *AllTagTreeReaders) getOrInsertMatchingTSIDs(mName uint64, tagKey str
 //	then return the count of matching TSIDs (via HLL method)
 //
 // The return values are (mNameFound, tagValueFound, rawTagValueToTSIDs, error)
+// hasBytes reports whether buf holds n more bytes at offset off.
+func hasBytes(buf []byte, off uint32, n uint32) bool {
+	return uint64(off)+uint64(n) <= uint64(len(buf))
+}
+
+// readTagTreeChunk reads the part [startOff, endOff) of the tags tree file. The
+// offsets come from the file itself, so they are checked against its size.
+func (ttr *TagTreeReader) readTagTreeChunk(startOff uint32, endOff uint32) ([]byte, error) {
+	fileInfo, err := ttr.fd.Stat()
+	if err != nil {
+		return nil, err
+	}
+	if endOff < startOff || int64(endOff) > fileInfo.Size() {
+		return nil, fmt.Errorf("readTagTreeChunk: invalid offsets [%v, %v) in file %v of size %v",
+			startOff, endOff, ttr.fd.Name(), fileInfo.Size())
+	}
+	tagTreeBuf := make([]byte, endOff-startOff)
+	_, err = ttr.fd.ReadAt(tagTreeBuf, int64(startOff))
+	if err != nil {
+		return nil, err
+	}
+	return tagTreeBuf, nil
+}
+
 func (ttr *TagTreeReader) getOrInsertMatchingTSIDs(mName uint64, tagValue uint64,
 	tagOperator sutils.TagOperator,
 	tsidCard *utils.GobbableHll) (bool, bool, map[string]map[uint64]struct{}, error) {
@@ -513,8 +537,7 @@ func (ttr *TagTreeReader) getOrInsertMatchingTSIDs(mName uint64, tagValue uint64
 		id += 4
 		endOff = utils.BytesToUint32LittleEndian(ttr.metadataBuf[id : id+4])
 
-		tagTreeBuf := make([]byte, endOff-startOff)
-		_, err := ttr.fd.ReadAt(tagTreeBuf, int64(startOff))
+		tagTreeBuf, err := ttr.readTagTreeChunk(startOff, endOff)
 		if err != nil {
 			log.Errorf("TagTreeReader.getOrInsertMatchingTSIDs: failed to read tagtree buffer for %v with startOffset %v and endOffset %v; err=%+v", ttr.fd.Name(), startOff, endOff, err)
 			return false, false, nil, err
@@ -534,9 +557,17 @@ func (ttr *TagTreeReader) getOrInsertMatchingTSIDs(mName uint64, tagValue uint64
 			if tagRawValueType[0] == sutils.VALTYPE_ENC_SMALL_STRING[0] {
 				tagValueLen := utils.BytesToUint16LittleEndian(tagTreeBuf[treeOffset : treeOffset+2])
 				treeOffset += 2
+				if !hasBytes(tagTreeBuf, treeOffset, uint32(tagValueLen)) {
+					log.Errorf("getOrInsertMatchingTSIDs: unexpected lack of space for a tag value of %v bytes", tagValueLen)
+					break
+				}
 				rawTagValue = tagTreeBuf[treeOffset : treeOffset+uint32(tagValueLen)]
 				treeOffset += uint32(tagValueLen)
 			} else if tagRawValueType[0] == sutils.VALTYPE_ENC_FLOAT64[0] {
+				if !hasBytes(tagTreeBuf, treeOffset, 8) {
+					log.Errorf("getOrInsertMatchingTSIDs: unexpected lack of space for a numeric tag value")
+					break
+				}
 				rawTagValue = tagTreeBuf[treeOffset : treeOffset+8]
 				treeOffset += 8
 			} else {
@@ -545,6 +576,10 @@ func (ttr *TagTreeReader) getOrInsertMatchingTSIDs(mName uint64, tagValue uint64
 				return false, false, nil, fmt.Errorf("unknown value type: %v", tagRawValueType)
 			}
 
+			if !hasBytes(tagTreeBuf, treeOffset, 2) {
+				log.Errorf("getOrInsertMatchingTSIDs: unexpected lack of space for the TSID count")
+				break
+			}
 			tsidCount := uint32(utils.BytesToUint16LittleEndian(tagTreeBuf[treeOffset : treeOffset+2]))
 			treeOffset += 2
 			if uint32(len(tagTreeBuf))-treeOffset < tsidCount*8 {
@@ -724,8 +759,7 @@ func (ttr *TagTreeReader) getValueIteratorForMetric(mName uint64) (*TagValueIter
 		startOff = utils.BytesToUint32LittleEndian(ttr.metadataBuf[id : id+4])
 		id += 4
 		endOff = utils.BytesToUint32LittleEndian(ttr.metadataBuf[id : id+4])
-		tagTreeBuf := make([]byte, endOff-startOff)
-		_, err := ttr.fd.ReadAt(tagTreeBuf, int64(startOff))
+		tagTreeBuf, err := ttr.readTagTreeChunk(startOff, endOff)
 		if err != nil {
 			log.Errorf("getValueIteratorForMetric: failed to read tagtree buffer at %d! Err %+v", startOff, err)
 			return nil, false, err
@@ -745,7 +779,7 @@ If bool=false, the returned tagvalue/rawvalue/matching tsids will be empty
 func (tvi *TagValueIterator) next() (uint64, []byte, []uint64, []byte, bool) {
 	var tagValue []byte
 	for tvi.treeOffset < uint32(len(tvi.tagTreeBuf)) {
-		if uint32(len(tvi.tagTreeBuf))-tvi.treeOffset < 10 {
+		if uint32(len(tvi.tagTreeBuf))-tvi.treeOffset < 11 {
 			// not enough bytes left in tagTreeBuf for a full tag tree entry
 			return 0, nil, nil, nil, false
 		}
@@ -756,16 +790,28 @@ func (tvi *TagValueIterator) next() (uint64, []byte, []uint64, []byte, bool) {
 		if tagRawValueType[0] == sutils.VALTYPE_ENC_SMALL_STRING[0] {
 			tagValueLen := utils.BytesToUint16LittleEndian(tvi.tagTreeBuf[tvi.treeOffset : tvi.treeOffset+2])
 			tvi.treeOffset += 2
+			if !hasBytes(tvi.tagTreeBuf, tvi.treeOffset, uint32(tagValueLen)) {
+				return 0, nil, nil, nil, false
+			}
 			tagValue = tvi.tagTreeBuf[tvi.treeOffset : tvi.treeOffset+uint32(tagValueLen)]
 			tvi.treeOffset += uint32(tagValueLen)
 		} else if tagRawValueType[0] == sutils.VALTYPE_ENC_FLOAT64[0] {
+			if !hasBytes(tvi.tagTreeBuf, tvi.treeOffset, 8) {
+				return 0, nil, nil, nil, false
+			}
 			tagValue = tvi.tagTreeBuf[tvi.treeOffset : tvi.treeOffset+8]
 			tvi.treeOffset += 8
 		} else if tagRawValueType[0] == sutils.VALTYPE_ENC_INT64[0] {
+			if !hasBytes(tvi.tagTreeBuf, tvi.treeOffset, 8) {
+				return 0, nil, nil, nil, false
+			}
 			tagValue = tvi.tagTreeBuf[tvi.treeOffset : tvi.treeOffset+8]
 			tvi.treeOffset += 8
 		} else {
 			log.Errorf("TagValueIterator.next: unknown value type: %v", tagRawValueType)
+		}
+		if !hasBytes(tvi.tagTreeBuf, tvi.treeOffset, 2) {
+			return 0, nil, nil, nil, false
 		}
 		tsidCount := uint32(utils.BytesToUint16LittleEndian(tvi.tagTreeBuf[tvi.treeOffset : tvi.treeOffset+2]))
 		tvi.treeOffset += 2
@@ -840,13 +886,15 @@ func (ttr *TagTreeReader) readTagValuesOnly(tagKey string,
 	}
 
 	for id < uint32(len(ttr.metadataBuf)) {
+		if !hasBytes(ttr.metadataBuf, id, 16) {
+			break
+		}
 		id += 8 // for hashedMetricName
 
 		startOff = utils.BytesToUint32LittleEndian(ttr.metadataBuf[id : id+4])
 		id += 4
 		endOff = utils.BytesToUint32LittleEndian(ttr.metadataBuf[id : id+4])
-		tagTreeBuf := make([]byte, endOff-startOff)
-		_, err := ttr.fd.ReadAt(tagTreeBuf, int64(startOff))
+		tagTreeBuf, err := ttr.readTagTreeChunk(startOff, endOff)
 		if err != nil {
 			log.Errorf("getValueIteratorForMetric: failed to read tagtree buffer at %d! Err %+v", startOff, err)
 			return err
@@ -886,7 +934,7 @@ Returns next tag value,  tag valueType, bool indicating if more values exist
 func (tvi *TagValueIterator) NextTagValue() ([]byte, []byte, bool) {
 	var tagValue []byte
 	for tvi.treeOffset < uint32(len(tvi.tagTreeBuf)) {
-		if uint32(len(tvi.tagTreeBuf))-tvi.treeOffset < 10 {
+		if uint32(len(tvi.tagTreeBuf))-tvi.treeOffset < 11 {
 			// not enough bytes left in tagTreeBuf for a full tag tree entry
 			return nil, nil, false
 		}
@@ -896,18 +944,30 @@ func (tvi *TagValueIterator) NextTagValue() ([]byte, []byte, bool) {
 		if tagRawValueType[0] == sutils.VALTYPE_ENC_SMALL_STRING[0] {
 			tagValueLen := utils.BytesToUint16LittleEndian(tvi.tagTreeBuf[tvi.treeOffset : tvi.treeOffset+2])
 			tvi.treeOffset += 2
+			if !hasBytes(tvi.tagTreeBuf, tvi.treeOffset, uint32(tagValueLen)) {
+				return nil, nil, false
+			}
 			tagValue = tvi.tagTreeBuf[tvi.treeOffset : tvi.treeOffset+uint32(tagValueLen)]
 			tvi.treeOffset += uint32(tagValueLen)
 		} else if tagRawValueType[0] == sutils.VALTYPE_ENC_FLOAT64[0] {
+			if !hasBytes(tvi.tagTreeBuf, tvi.treeOffset, 8) {
+				return nil, nil, false
+			}
 			tagValue = tvi.tagTreeBuf[tvi.treeOffset : tvi.treeOffset+8]
 			tvi.treeOffset += 8
 		} else if tagRawValueType[0] == sutils.VALTYPE_ENC_INT64[0] {
+			if !hasBytes(tvi.tagTreeBuf, tvi.treeOffset, 8) {
+				return nil, nil, false
+			}
 			tagValue = tvi.tagTreeBuf[tvi.treeOffset : tvi.treeOffset+8]
 			tvi.treeOffset += 8
 		} else {
 			log.Errorf("TagValueIterator.Next: unknown value type: %v", tagRawValueType)
 			return nil, nil, false
 
+		}
+		if !hasBytes(tvi.tagTreeBuf, tvi.treeOffset, 2) {
+			return nil, nil, false
 		}
 		tsidCount := uint32(utils.BytesToUint16LittleEndian(tvi.tagTreeBuf[tvi.treeOffset : tvi.treeOffset+2]))
 		tvi.treeOffset += 2
